@@ -75,7 +75,7 @@ def run(ctx, proofs_ok):
          "fams": ["exp", "str", "key", "list", "hash", "set", "zset"], "n": (1200, 4000), "count": (2, 12), "backend": "pebble", "events": ev},
     ], extra=[("empty and one-byte values of every type, evicted and reloaded (memory)", edge_values("open a mem"), False),
               ("empty and one-byte values of every type, evicted and reloaded (Pebble)", edge_values(f"open a pebble {ctx.work}/pebble-edge"), False),
-              ("writers: every writing method once on clean, cold keys with eviction passes in between, then Close + Open (memory)", cleanwrite.table("open a mem", evict_between=True), False),
+              ("writers: every writing method once on clean, cold keys with eviction passes in between, then Close + Open (memory)", cleanwrite.table("open a mem", evict_between=True, relative=True), True),
               ("writers-pebble: the same on Pebble, keys with deadlines", cleanwrite.table(f"open a pebble {ctx.work}/pebble-cw", evict_between=True, with_deadline=True), False)])
     if ctx.violations:
         return
